@@ -67,7 +67,7 @@ def run_unit(unit_dir: str, repo_root: str = '/repo', tier: str = 'quick', keep:
         fails = j.get('failures', [])
         res['bounded'].append({'id': cfg['obligation'], 'bound': j.get('bound', ''), 'status': 'fail' if fails else 'pass',
                                'clause': cfg.get('clause', ''), 'states': j.get('states'), 'pairs': j.get('pairs')})
-        res['enumeration'] = {'states': j.get('states'), 'pairs': j.get('pairs')}
+        res['enumeration'] = {'states': j.get('states'), 'pairs': j.get('pairs'), 'nontrivial_pairs': j.get('nontrivial_pairs')}
         for k, f in enumerate(fails):
             res['failures'].append({'id': cfg['obligation'], 'message': 'bounded enumeration found a failing pair', 'kind': 'native',
                                     'clause': cfg.get('clause', ''), 'rendered': json.dumps(f)[:2500],
